@@ -33,6 +33,7 @@ func runC10(c *core.Ctx, o Options) {
 		"Y3: no path from the handler takes a new sequence number or re-stamps a header (retransmissions keep number and bytes). Y4: memory.Storage.Messages returns an error for from>to, for to beyond the outgoing counter and for a missing entry, " +
 		"and otherwise appends messages[i] for i = from; i <= to; i++. Y5: on the path where EndSeqNo() == 0 the upper bound is the outgoing counter's current value instead. " +
 		"Y6: at logon, when last-received+1 < received, the ResendRequest's BeginSeqNo operand is last-received+1 (the expression the comparison treats as next expected) and EndSeqNo is 0, then the incoming counter is set. " +
+		"Y7: every message a loop of the session sends is built inside that loop, so an object kept by the store is never stamped again. Y8: SendBatch ranges over its whole argument, hands each element to DefaultHandler.send, which enqueues through a direct call of sendRaw, whose only wait is a blocking select on the out channel and the handler context (no default branch: a full queue delays, never drops). " +
 		"Structural conditions over all histories and ranges; byte identity of a retransmission with its first transmission is decided only as far as Y1/Y3 (same stored object, no mutation on the resend path)."
 	s := newSess(c)
 	if s == nil {
@@ -283,7 +284,11 @@ func runC10(c *core.Ctx, o Options) {
 			c.Check(n == 0, "Y6", "inbound:Logon", "every successful logon path runs the gap check", lf.Pos(), "gap check follows each transition to SuccessfulLogged", fmt.Sprintf("%d logon path(s) skip the gap check", n))
 		}
 	}
-	c.RuleMin = map[string]int{"Y1": 1, "Y2": 1, "Y3": 1, "Y4": 2, "Y5": 1, "Y6": 2}
+	// ---- Y7 each stored object is sent once: what the store keeps under a number is never re-stamped by a later send
+	checkFreshMessages(c, s, "Y7")
+	// ---- Y8 the batch is delivered whole: SendBatch walks the entire list through the same blocking enqueue as Send
+	checkBatchDelivery(c, "Y8")
+	c.RuleMin = map[string]int{"Y1": 1, "Y2": 1, "Y3": 1, "Y4": 2, "Y5": 1, "Y6": 2, "Y7": 3, "Y8": 3}
 	c.MinObl = 8
 }
 
@@ -434,4 +439,83 @@ func (s *sess) checkSaveHandler(rule string) {
 			ob.Ok("%d path(s)", nSave)
 		}
 	}
+}
+
+// checkBatchDelivery (Y8).
+func checkBatchDelivery(c *core.Ctx, rule string) {
+	sb, hsend, hraw := c.Func("", "DefaultHandler.SendBatch"), c.Func("", "DefaultHandler.send"), c.Func("", "DefaultHandler.sendRaw")
+	if !c.Anchor("batch send chain", sb != nil && hsend != nil && hraw != nil && len(sb.Params) == 2, "DefaultHandler.SendBatch, send, sendRaw", posOf(sb)) {
+		return
+	}
+	// SendBatch: for i, m := range messages { send(m) } over the parameter itself
+	var call *ssa.Call
+	an.AllInstrs(sb, func(in ssa.Instruction) {
+		if cl, ok := in.(*ssa.Call); ok && an.StaticCallee(&cl.Call) == hsend {
+			call = cl
+		}
+	})
+	ob := c.Ob(rule, "DefaultHandler.SendBatch", "hands every element of its argument, in order, to send", sb.Pos())
+	switch {
+	case call == nil:
+		ob.Fail("SendBatch does not call DefaultHandler.send directly")
+	case !inLoop(call.Block()):
+		ob.Fail("the call of send is not in a loop")
+	default:
+		ia, ok := unload(call.Call.Args[1]).(*ssa.IndexAddr)
+		if !ok || ia.X != ssa.Value(sb.Params[1]) || rangeIndexPhi(ia.Index) == nil {
+			ob.Fail("send is given %s, not the elements of the batch in ascending order from the first", an.Render(call.Call.Args[1]))
+		} else {
+			// the loop runs to len(messages)
+			bound := false
+			phi := rangeIndexPhi(ia.Index)
+			for _, v := range []ssa.Value{phi, ia.Index} {
+				if v == nil || v.Referrers() == nil {
+					continue
+				}
+				for _, ref := range *v.Referrers() {
+					if bo, ok := ref.(*ssa.BinOp); ok && bo.Op == token.LSS && an.Render(bo.Y) == "len("+sb.Params[1].Name()+")" {
+						bound = true
+					}
+				}
+			}
+			if bound {
+				ob.Ok("range over the whole batch")
+			} else {
+				ob.Fail("the loop does not run to len(%s)", sb.Params[1].Name())
+			}
+		}
+	}
+	c.Check(callsDirect(hsend, hraw), rule, "DefaultHandler.send", "enqueues through a direct call of sendRaw", hsend.Pos(), "sendRaw(data)", "send does not call sendRaw directly: the batch path may use a different (lossy) way to enqueue")
+	// sendRaw: the only wait is one blocking select {out <- data; <-ctx.Done()}
+	nSel, okSel := 0, false
+	an.AllInstrs(hraw, func(in ssa.Instruction) {
+		sel, ok := in.(*ssa.Select)
+		if !ok {
+			return
+		}
+		nSel++
+		if !sel.Blocking {
+			return
+		}
+		sends, dones := 0, 0
+		for _, st := range sel.States {
+			if st.Dir == 1 && st.Send == ssa.Value(hraw.Params[1]) {
+				if f, _ := an.LoadedField(st.Chan); f != nil && f.Name() == "out" {
+					sends++
+				}
+			}
+			if st.Dir == 2 && doneContext(st.Chan) != "" {
+				dones++
+			}
+		}
+		okSel = sends == 1 && dones == len(sel.States)-1
+	})
+	plainSend := false
+	an.AllInstrs(hraw, func(in ssa.Instruction) {
+		if snd, ok := in.(*ssa.Send); ok && snd.X == ssa.Value(hraw.Params[1]) {
+			plainSend = true
+		}
+	})
+	c.Check((nSel == 1 && okSel) || (nSel == 0 && plainSend), rule, "DefaultHandler.sendRaw", "waits for room in the outgoing queue (or for the handler to stop); never drops", hraw.Pos(), "blocking select {out <- data; <-ctx.Done()}",
+		"sendRaw's enqueue is not a blocking send on the out channel guarded only by context cancellation: with a default branch or a timeout a full queue drops part of a retransmission")
 }
